@@ -268,6 +268,8 @@ def run_evaluator(prog, typing, text):
 
     def entry(it):
         mod = it.import_module(harness.EVAL_MODULE)
+        it.import_module("pyab_experiment.binning.binning")
+        it.ctx.begin_call()
         ev = it.call(mod.vars["ExperimentEvaluator"], [text], {})
         return it.call(ev, [], dict(kwargs))
     run = api.run(entry, opts={"float_mode": "real", "prune": True, "abstract_int_str": True}, setup=setup)
